@@ -106,7 +106,7 @@ def _post_attach(self, self_bond_idx, other, other_bond_idx, result, OLD):
     d1, a1, n1, w1, t1 = o["open"][self_bond_idx]
     d2, a2, n2, w2, t2 = o["oopen"][other_bond_idx]
     N = o["n"]
-    ev = {"d1": d1, "d2": d2, "a1": a1, "a2": a2 + N, "n_before": N, "n_other": len(o["oatoms"]), "order": d1[2], "node1": n1, "node2": n2 + o["gn"], "mass_before": o["mass"], "mass_after": result.weight, "oid": id(result), "n_open_after": len(result.bond_descriptors), "other_token": getattr(other, "_gbv_token", None)}
+    ev = {"d1": d1, "d2": d2, "a1": a1, "a2": a2 + N, "n_before": N, "n_other": len(o["oatoms"]), "order": d1[2], "node1": n1, "node2": n2 + o["gn"], "mass_before": o["mass"], "mass_after": result.weight, "oid": id(result), "n_open_after": len(result.bond_descriptors), "other_token": getattr(other, "_gbv_token", None), "open_before": [(x[0], x[3]) for x in o["open"]]}
     eid = trace.emit("attach", **ev)
     result._gbv_hist = o["hist"] + o["ohist"] + [eid]
     for which in ("bd_self", "bd_other"):
